@@ -25,6 +25,9 @@ type Spec struct {
 	Unread   bool   `json:"unread,omitempty"`
 	Rejected bool   `json:"rejected,omitempty"`
 	Ext      string `json:"ext,omitempty"` // set_unread: spelling of the stored file's extension (default ".b2f")
+	// FirstMbox: the handler is created and prepared for this mailbox first and then pointed at Mbox through its
+	// exported MBoxPath field (one long-lived handler serving several call signs)
+	FirstMbox string `json:"first_mbox,omitempty"`
 }
 
 // Result mirrors cmd/mboxop.Result plus what the parent saw of the process.
